@@ -401,6 +401,298 @@ theorem runLogged_broker (w : World) (inG : Comp → Bool) (ss : Bool) (o : List
   | nil => rfl
   | cons c o ih => simp only [runLogged, run_cons]; exact ih _
 
+/-! ### hierarchies: registry points re-declared in intermediate spec-set classes
+
+`hRegister h` is the general registration fold (Model/Specs, second half): every class carries its
+`parents` chain and may declare registry points as well as datasources; the handler table a
+registration lands in is the one of the TOPMOST class of the chain of classes that declare the name.
+The override theorems are stated on these tables: whatever the hierarchy, all entries of a table
+but the last are told to ignore the context (and nobody else is), implementations attached directly
+and through intermediate classes land in the SAME table, and the value seen at every level's
+registry point is the one of the single implementation that is allowed to run, or nothing. -/
+
+/-- override, for every hierarchy: every entry of a (top class, name, context) handler table but the
+last one registered has the context in its ignore list — whichever class level it was attached at —
+hence is skipped before its requirements are looked at and its body is not invoked -/
+theorem hier_earlier_ignored (h : HHistory) (t : ClassId) (n : Name) (c v : Comp)
+    (hv : v ∈ ((hRegister h).handlers t n c).dropLast) :
+    c ∈ (hWorld env (hRegister h)).ignore v ∧
+    ∀ (inG : Comp → Bool) (ss : Bool) (d : Decl) (i : Inst), present i c = true →
+      process (hWorld env (hRegister h)) ss v d i = .skipped .skip [] ∧
+      fires (hWorld env (hRegister h)) inG v d i = false := by
+  have hc : c ∈ (hRegister h).ignore v := hregister_InvA h t n c v hv
+  refine ⟨hc, ?_⟩
+  intro inG ss d i hp
+  have hany : ((hWorld env (hRegister h)).ignore v).any (present i) = true :=
+    List.any_eq_true.mpr ⟨c, hc, hp⟩
+  exact ⟨(process_cases _ ss v d i).1 hany, by simp [fires, hany]⟩
+
+/-- …and only they are: nothing is told to ignore a context except the non-last entries of some table -/
+theorem hier_ignore_only_earlier (h : HHistory) (v c : Comp) (hc : c ∈ (hRegister h).ignore v) :
+    ∃ t n, v ∈ ((hRegister h).handlers t n c).dropLast :=
+  hregister_InvB h v c hc
+
+/-- the last entry of a table is not told to ignore the context, provided it was registered once
+(it occurs once in that table and in no other table of the context) -/
+theorem hier_latest_not_ignored (h : HHistory) (t : ClassId) (n : Name) (c v : Comp)
+    (hl : ((hRegister h).handlers t n c).getLast? = some v)
+    (hnd : ((hRegister h).handlers t n c).Nodup)
+    (honce : ∀ t' n', v ∈ (hRegister h).handlers t' n' c → t' = t ∧ n' = n) :
+    c ∉ (hWorld env (hRegister h)).ignore v := by
+  intro hc
+  obtain ⟨t', n', hm⟩ := hier_ignore_only_earlier h v c hc
+  obtain ⟨rfl, rfl⟩ := honce t' n' (List.dropLast_subset _ hm)
+  exact getLast_not_mem_dropLast _ v hnd hl hm
+
+/-- the override table is SHARED by everything that implements the same top-level point: a class whose
+parents chain is `mids ++ [top]`, all of which declare the name, registers in the table of `top` —
+the same table as a class that extends `top` directly; a class in the chain that does NOT declare the
+name cuts the chain (`handlerRoot_eq`, the general form) -/
+theorem hier_shared_table (r : HReg) (n : Name) (top : ClassId) (mids : List ClassId)
+    (hall : ∀ x ∈ mids ++ [top], (r.registry x n).isSome = true) :
+    handlerRoot r [top] n = some top ∧ handlerRoot r (mids ++ [top]) n = some top := by
+  have ht : (r.registry top n).isSome = true := hall top (by simp)
+  constructor
+  · exact handlerRoot_eq r n [] [] top (by simp) ht (by simp)
+  · exact handlerRoot_eq r n mids [] top (fun x hx => hall x (by simp [hx])) ht (by simp)
+
+/-- what one wiring step does: the attribute becomes the LAST dependency of the point of `bases[0]` and
+the last entry of the shared table for each of its contexts -/
+theorem hier_attach_lands (r : HReg) (b : ClassId) (ps : List ClassId) (n : Name) (v pt : Comp) (ctxs : List Comp)
+    (t : ClassId) (hb : r.registry b n = some pt) (ht : handlerRoot r (b :: ps) n = some t) :
+    (hAttach (b :: ps) n v ctxs r).deps pt = r.deps pt ++ [v] ∧
+    ∀ c ∈ ctxs, (hAttach (b :: ps) n v ctxs r).handlers t n c = r.handlers t n c ++ [v] := by
+  unfold hAttach
+  simp only [hb, ht]
+  constructor
+  · rw [(hfoldCtx_deps t n v _ _).1]; simp
+  · intro c hc
+    rw [hfoldCtx_handlers t n v _ (dedup_nodup _)]
+    simp [dedup_mem, hc]
+
+/-- the value at ANY level's registry point: the entry of its last dependency that ended up with a value
+(a dependency is an implementation attached at this level or the re-declared point of a subclass) -/
+theorem hier_point_value_general (h : HHistory) (p : Comp) (hp : (hRegister h).isPoint p = true)
+    (inG : Comp → Bool) (ss : Bool) (seed : Inst) (o : List Comp)
+    (hv : Valid (hWorld env (hRegister h)) inG seed o)
+    (hpo : p ∈ evald inG o) (hen : env.enabled p = true) (hps : seed p = none)
+    (hph : ∀ t n c, p ∉ (hRegister h).handlers t n c) :
+    (runComponents (hWorld env (hRegister h)) inG ss o (Broker.seeded seed)).inst p =
+      lastPresent (((hRegister h).deps p).map (runComponents (hWorld env (hRegister h)) inG ss o (Broker.seeded seed)).inst) := by
+  have hin : inG p = true := (List.mem_filter.mp hpo).2
+  have hign : ∀ x ∈ (hRegister h).ignore p,
+      present (runComponents (hWorld env (hRegister h)) inG ss o (Broker.seeded seed)).inst x = false := by
+    intro x hx
+    obtain ⟨t, n, hm⟩ := hier_ignore_only_earlier h p x hx
+    exact absurd (List.dropLast_subset _ hm) (hph t n x)
+  have := (run_view _ inG ss seed o hv p hpo).1
+  simp only [entry, present, hps] at this
+  rw [this]
+  exact hpoint_record inG ss env _ p hp _ hin hen hign
+
+/-- a family of components closed under "dependencies of its registry points": if every DATASOURCE of the
+family ends up absent or with the entry `x`, so does every registry point of the family — at every level -/
+theorem hier_family_value (h : HHistory) (inG : Comp → Bool) (ss : Bool) (seed : Inst) (o : List Comp)
+    (hv : Valid (hWorld env (hRegister h)) inG seed o)
+    (fam : Comp → Prop)
+    (hclosed : ∀ p, fam p → (hRegister h).isPoint p = true → ∀ d ∈ (hRegister h).deps p, fam d)
+    (x : Option Val)
+    (hleaf : ∀ v, fam v → (hRegister h).isPoint v = false →
+      (runComponents (hWorld env (hRegister h)) inG ss o (Broker.seeded seed)).inst v = none ∨
+      (runComponents (hWorld env (hRegister h)) inG ss o (Broker.seeded seed)).inst v = x)
+    (hpt : ∀ p, (hRegister h).isPoint p = true →
+      seed p = none ∧ env.enabled p = true ∧ ∀ t n c, p ∉ (hRegister h).handlers t n c) :
+    ∀ p, fam p →
+      (runComponents (hWorld env (hRegister h)) inG ss o (Broker.seeded seed)).inst p = none ∨
+      (runComponents (hWorld env (hRegister h)) inG ss o (Broker.seeded seed)).inst p = x := by
+  -- along the order: a point's dependencies that are evaluated at all come before it
+  have key : ∀ (post pre : List Comp), o = pre ++ post →
+      (∀ c ∈ pre, fam c →
+        (runComponents (hWorld env (hRegister h)) inG ss o (Broker.seeded seed)).inst c = none ∨
+        (runComponents (hWorld env (hRegister h)) inG ss o (Broker.seeded seed)).inst c = x) →
+      ∀ c ∈ pre ++ post, fam c →
+        (runComponents (hWorld env (hRegister h)) inG ss o (Broker.seeded seed)).inst c = none ∨
+        (runComponents (hWorld env (hRegister h)) inG ss o (Broker.seeded seed)).inst c = x := by
+    intro post
+    induction post with
+    | nil => intro pre _ hp c hc; exact hp c (by simpa using hc)
+    | cons d post ih =>
+      intro pre ho hp
+      have hd : fam d →
+          (runComponents (hWorld env (hRegister h)) inG ss o (Broker.seeded seed)).inst d = none ∨
+          (runComponents (hWorld env (hRegister h)) inG ss o (Broker.seeded seed)).inst d = x := by
+        intro hfd
+        cases hip : (hRegister h).isPoint d with
+        | false => exact hleaf d hfd hip
+        | true =>
+          obtain ⟨hsd, hed, hhd⟩ := hpt d hip
+          by_cases hde : d ∈ evald inG o
+          · rw [hier_point_value_general env h d hip inG ss seed o hv hde hed hsd hhd]
+            apply lastPresent_all_eq
+            intro a ha
+            obtain ⟨y, hy, rfl⟩ := List.mem_map.mp ha
+            have hfy := hclosed d hfd hip y hy
+            cases hiy : (hRegister h).isPoint y with
+            | false => exact hleaf y hfy hiy
+            | true =>
+              by_cases hye : y ∈ evald inG o
+              · have hyg := (List.mem_filter.mp hye).2
+                have hyo := (List.mem_filter.mp hye).1
+                have hdeps : y ∈ (hWorld env (hRegister h)).deps d := by
+                  simp [World.deps, hWorld, hip, pointDecl, Decl.deps, hy]
+                obtain ⟨h1, h2⟩ := hv.depsFirst pre d post ho (List.mem_filter.mp hde).2 y hdeps hyg
+                rw [ho] at hyo
+                rcases List.mem_append.mp hyo with h3 | h3
+                · exact hp y h3 hfy
+                · rcases List.mem_cons.mp h3 with h4 | h4
+                  · exact absurd h4 h2
+                  · exact absurd h4 h1
+              · left
+                rw [(run_view_out _ inG ss seed o y hye).1]
+                exact (hpt y hiy).1
+          · left
+            rw [(run_view_out _ inG ss seed o d hde).1]
+            exact hsd
+      have := ih (pre ++ [d]) (by simp [ho]) (by
+        intro c hc hfc
+        rcases List.mem_append.mp hc with h1 | h1
+        · exact hp c h1 hfc
+        · have : c = d := by simpa using h1
+          rw [this] at hfc ⊢; exact hd hfc)
+      intro c hc
+      exact this c (by simpa using hc)
+  intro p hfp
+  by_cases hpo : p ∈ o
+  · exact key o [] (by simp) (by simp) p (by simpa using hpo) hfp
+  · have hpe : p ∉ evald inG o := fun m => hpo (List.mem_filter.mp m).1
+    cases hip : (hRegister h).isPoint p with
+    | false => exact hleaf p hfp hip
+    | true =>
+      left
+      rw [(run_view_out _ inG ss seed o p hpe).1]
+      exact (hpt p hip).1
+
+/-- …and a registry point from which the implementation `vL` is reached (through re-declared points) holds
+exactly `vL`'s entry: its value if it produced one, nothing otherwise -/
+theorem hier_path_value (h : HHistory) (inG : Comp → Bool) (ss : Bool) (seed : Inst) (o : List Comp)
+    (hv : Valid (hWorld env (hRegister h)) inG seed o)
+    (fam : Comp → Prop)
+    (hclosed : ∀ p, fam p → (hRegister h).isPoint p = true → ∀ d ∈ (hRegister h).deps p, fam d)
+    (vL : Comp)
+    (hgood : ∀ q, fam q →
+      (runComponents (hWorld env (hRegister h)) inG ss o (Broker.seeded seed)).inst q = none ∨
+      (runComponents (hWorld env (hRegister h)) inG ss o (Broker.seeded seed)).inst q =
+        (runComponents (hWorld env (hRegister h)) inG ss o (Broker.seeded seed)).inst vL)
+    (hpt : ∀ p, fam p → (hRegister h).isPoint p = true →
+      p ∈ evald inG o ∧ seed p = none ∧ env.enabled p = true ∧ ∀ t n c, p ∉ (hRegister h).handlers t n c)
+    (p : Comp) (hfp : fam p) (hpath : Path (hRegister h) p vL) :
+    (runComponents (hWorld env (hRegister h)) inG ss o (Broker.seeded seed)).inst p =
+      (runComponents (hWorld env (hRegister h)) inG ss o (Broker.seeded seed)).inst vL := by
+  induction hpath with
+  | direct p v hip hvd =>
+    obtain ⟨hpe, hsp, hen, hph⟩ := hpt p hfp hip
+    rw [hier_point_value_general env h p hip inG ss seed o hv hpe hen hsp hph]
+    apply lastPresent_all_eq_mem
+    · intro a ha
+      obtain ⟨y, hy, rfl⟩ := List.mem_map.mp ha
+      exact hgood y (hclosed p hfp hip y hy)
+    · exact List.mem_map.mpr ⟨v, hvd, rfl⟩
+  | step p q v hip hqd _ ih =>
+    obtain ⟨hpe, hsp, hen, hph⟩ := hpt p hfp hip
+    have hfq := hclosed p hfp hip q hqd
+    rw [hier_point_value_general env h p hip inG ss seed o hv hpe hen hsp hph]
+    apply lastPresent_all_eq_mem
+    · intro a ha
+      obtain ⟨y, hy, rfl⟩ := List.mem_map.mp ha
+      exact hgood y (hclosed p hfp hip y hy)
+    · exact List.mem_map.mpr ⟨q, hqd, ih hgood hfq⟩
+
+/-- the value clause over a hierarchy.  `c` is the active context, `L` the handler table of the spec's top
+class `T` for `c`, `fam` the spec: the top-level point, its re-declarations and everything wired to them
+(closed under the dependency lists of its registry points).  Under hypothesis (H) — every implementation
+of the spec is either in the shared table `L` or bound (`Requires`) to contexts other than `c` —
+(1) no implementation other than the last entry of `L` ends up with a value, whichever level it is attached
+at; (2) every registry point of the spec, at every level, holds that last entry's value or nothing; (3) a
+point from which the last entry is reached holds exactly its entry (its value, or nothing if it produced none).
+PARTIAL: (H) is a hypothesis on the registration state; it is derived from the history for the flat shape
+(`registration_lists` + `point_value_partial`), and for generated hierarchies it is computed by the driver
+on every case (`H=ok` in the registration stream), not proved from the fold in general. -/
+theorem hier_point_value_partial (h : HHistory) (T : ClassId) (n : Name) (c : Comp)
+    (inG : Comp → Bool) (ss : Bool) (seed : Inst) (o : List Comp)
+    (hv : Valid (hWorld env (hRegister h)) inG seed o)
+    (hc : present seed c = true) (honly : ∀ x, present seed x = true → x = c)
+    (hdecl : ∀ x, ((hWorld env (hRegister h)).decl x).isSome = true → x ≠ c)
+    (fam : Comp → Prop) (hcf : ¬ fam c)
+    (hclosed : ∀ p, fam p → (hRegister h).isPoint p = true → ∀ d ∈ (hRegister h).deps p, fam d)
+    (hH : ∀ v, fam v → (hRegister h).isPoint v = false →
+      v ∈ (hRegister h).handlers T n c ∨ ∃ cs, Requires (hWorld env (hRegister h)) cs v ∧ c ∉ cs)
+    (hpt : ∀ p, (hRegister h).isPoint p = true →
+      env.enabled p = true ∧ ∀ t' n' c', p ∉ (hRegister h).handlers t' n' c')
+    (hpe : ∀ p, fam p → (hRegister h).isPoint p = true → p ∈ evald inG o) :
+    let b := runComponents (hWorld env (hRegister h)) inG ss o (Broker.seeded seed)
+    let x : Option Val := match ((hRegister h).handlers T n c).getLast? with | none => none | some vL => b.inst vL
+    (∀ v, fam v → (hRegister h).isPoint v = false → ((hRegister h).handlers T n c).getLast? ≠ some v → b.inst v = none) ∧
+    (∀ p, fam p → b.inst p = none ∨ b.inst p = x) ∧
+    (∀ p vL, fam p → ((hRegister h).handlers T n c).getLast? = some vL → Path (hRegister h) p vL → b.inst p = b.inst vL) := by
+  intro b x
+  have hseednone : ∀ y, y ≠ c → seed y = none := by
+    intro y hy
+    cases hsy : seed y with
+    | none => rfl
+    | some val => exact absurd (honly y (by simp [present, hsy])) hy
+  have hcpres : present b.inst c = true := seeded_stays _ inG ss seed o c hc
+  have hpdecl : ∀ p, (hRegister h).isPoint p = true → p ≠ c := by
+    intro p hp; apply hdecl; simp [hWorld, hp]
+  have h1 : ∀ v, fam v → (hRegister h).isPoint v = false →
+      ((hRegister h).handlers T n c).getLast? ≠ some v → b.inst v = none := by
+    intro v hfv hiv hne
+    have hvc : v ≠ c := fun hh => hcf (hh ▸ hfv)
+    rcases hH v hfv hiv with hL | ⟨cs, hr, hccs⟩
+    · have hdl := mem_dropLast_of_ne_getLast _ v hL hne
+      have hig := (hier_earlier_ignored env h T n c v hdl).1
+      rcases inst_eq_record _ inG ss seed o hv v (hseednone v hvc) with h0 | ⟨_, h1⟩
+      · exact h0
+      · rw [h1]
+        cases hdv : (hWorld env (hRegister h)).decl v with
+        | none => simp [record, eligible, hdv]
+        | some d =>
+          exact record_val_none _ inG ss v d hdv _ (Or.inl (List.any_eq_true.mpr ⟨c, hig, hcpres⟩))
+    · exact (requires_absent _ inG ss seed o hv cs
+        (fun y hy => hseednone y (fun hh => hccs (hh ▸ hy)))
+        (fun y hy => hseednone y (hdecl y hy)) v hr).1
+  have hpt' : ∀ p, (hRegister h).isPoint p = true →
+      seed p = none ∧ env.enabled p = true ∧ ∀ t' n' c', p ∉ (hRegister h).handlers t' n' c' :=
+    fun p hp => ⟨hseednone p (hpdecl p hp), (hpt p hp).1, (hpt p hp).2⟩
+  have h2 : ∀ p, fam p → b.inst p = none ∨ b.inst p = x := by
+    apply hier_family_value env h inG ss seed o hv fam hclosed x _ hpt'
+    intro v hfv hiv
+    cases hl : ((hRegister h).handlers T n c).getLast? with
+    | none => left; exact h1 v hfv hiv (by rw [hl]; simp)
+    | some vL =>
+      by_cases hvv : vL = v
+      · right; show b.inst v = x; simp only [x, hl, hvv]
+      · left; exact h1 v hfv hiv (by rw [hl]; intro hh; exact hvv (Option.some.inj hh))
+  refine ⟨h1, h2, ?_⟩
+  intro p vL hfp hl hpath
+  apply hier_path_value env h inG ss seed o hv fam hclosed vL _ _ p hfp hpath
+  · intro q hfq
+    have := h2 q hfq
+    simp only [x, hl] at this
+    exact this
+  · intro q hfq hiq
+    exact ⟨hpe q hfq hiq, (hpt' q hiq).1, (hpt' q hiq).2.1, (hpt' q hiq).2.2⟩
+
+/-! a hierarchy witness-free example: Top = class 0 declares spec 0 as point 10; Mid = class 1 extends Top
+and re-declares it as point 11; Direct = class 2 extends Top with implementation 1 for context 20;
+Nested = class 3 extends Mid with implementation 2 for context 20 (registered later) -/
+private def hHist : HHistory :=
+  [⟨[], [⟨0, 10, true, []⟩]⟩, ⟨[0], [⟨0, 11, true, []⟩]⟩, ⟨[0], [⟨0, 1, false, [20]⟩]⟩, ⟨[1, 0], [⟨0, 2, false, [20]⟩]⟩]
+example : (hRegister hHist).deps 10 = [11, 1] ∧ (hRegister hHist).deps 11 = [2] ∧
+    (hRegister hHist).handlers 0 0 20 = [1, 2] ∧ (hRegister hHist).handlers 1 0 20 = [] ∧
+    (hRegister hHist).ignore 1 = [20] ∧ (hRegister hHist).ignore 2 = [] := by decide
+example : hWellFormed 0 hHist = true ∧ famLeaves (hRegister hHist) 5 10 = [2, 1] := by decide
+example : Path (hRegister hHist) 10 2 := .step 10 11 2 (by decide) (by decide) (.direct 11 2 (by decide) (by decide))
+
 /-! ### non-vacuity -/
 private def exHist : History :=
   [⟨true, [⟨0, 1, [20]⟩, ⟨5, 9, [20]⟩]⟩, ⟨true, [⟨0, 2, [20, 21]⟩]⟩, ⟨false, [⟨0, 4, [20]⟩]⟩, ⟨true, [⟨0, 3, [21, 21]⟩]⟩]
